@@ -96,7 +96,8 @@ def run_cases(ck, res, n_cases, n_interval, exhaustive=False):
         if len(goals) < n_interval:
             venv = {'t': ts[2]}
             venv.update({TH[j]: cols[j][2] for j in range(M)})
-            goals.append(enga.interval_goal(f'{tname}', term, venv, attrs, {'N': net_p}, uv[2], scale))
+            goals.append(enga.interval_goal(f'{tname}', term, venv, attrs, {'N': net_p}, uv[2], scale,
+                                            gen=('Gen_C10', tname, 'term'), names=res[tname]['names']))
     for cls, lk in ((C.BundleIVP, {'t_1': 0}), (C.BundleDirichletBVP, {'u_0_prime': 0})):
         ck.add_case(('reject', cls.__name__))
         try:
